@@ -206,13 +206,25 @@ pub fn finish(ctx: &Ctx, mut out: Outcome) -> i32 {
     let mut seen_class: HashSet<(String, String, Vec<String>)> = HashSet::new();
     let mut replay_paths = vec![];
     let dir = format!("{}/replays/{}", out_root(), ctx.prop);
+    // order: first one case of every (clause, symptom) class, then the remaining tag variants
+    let mut first_of_class: HashSet<(String, String)> = HashSet::new();
+    let mut ordered: Vec<&Violation> = vec![];
+    let mut rest: Vec<&Violation> = vec![];
     for v in &uncovered {
+        if first_of_class.insert((v.clause.clone(), v.symptom.clone())) {
+            ordered.push(v);
+        } else {
+            rest.push(v);
+        }
+    }
+    ordered.extend(rest);
+    for v in &ordered {
         let key = (v.clause.clone(), v.symptom.clone(), v.tags.clone());
         if seen_class.contains(&key) {
             continue;
         }
         seen_class.insert(key);
-        if replay_paths.len() >= 25 {
+        if replay_paths.len() >= 40 {
             continue;
         }
         let _ = std::fs::create_dir_all(&dir);
